@@ -167,7 +167,7 @@ def run(ctx):
     # the order scaffolds are WRITTEN in: every output file of the command-line tool holds its assembly's scaffolds in the (rank, natural key)
     # order computed in memory — also the file that merges several haplotypes in Primary mode (each haplotype keeps its order; wave 13, C20k)
     import remap_lib as R
-    cli_cases = [R.make_case(ctx.rng, k) for k in ("tagged", "tagged2", "primarymode", "primarymode") for _ in range(40 if ctx.thorough else 6)]
+    cli_cases = [R.make_case(ctx.rng, k) for k in ("tagged", "tagged2", "primarymode", "primarynames", "primarynames") for _ in range(40 if ctx.thorough else 6)]
     R.run_cli_cases(ctx, "cli-file-order", cli_cases, None, only=["does not contain exactly", "unexpected assembly files", "output file"])
 
 
